@@ -41,6 +41,7 @@ func (t tierJSON) cfg() tierCfg {
 type propCfg struct {
 	Pkg      string
 	Race     bool
+	Crash    bool // a fatal crash of the test process is a violation (C11), attributed via the in-flight file
 	Level    string
 	Rule     string
 	Quick    tierCfg
@@ -63,6 +64,7 @@ func cfg(id string) (propCfg, bool) {
 	}
 	var j struct {
 		Race     bool     `json:"race"`
+		Crash    bool     `json:"crash_is_violation"`
 		Level    string   `json:"level"`
 		Rule     string   `json:"rule"`
 		Assume   []string `json:"assumptions"`
@@ -75,6 +77,7 @@ func cfg(id string) (propCfg, bool) {
 		return c, false
 	}
 	c.Race, c.Level, c.Rule, c.Assume, c.Fuzz = j.Race, j.Level, j.Rule, j.Assume, j.Fuzz
+	c.Crash = j.Crash
 	c.Quick, c.Thorough = j.Quick.cfg(), j.Thorough.cfg()
 	if c.Level == "" {
 		c.Level = "exploration"
@@ -232,6 +235,7 @@ func main() {
 				"VERIF_REPLAY_DIR="+filepath.Join(root, "replays"),
 				"VERIF_REPLAY_FILE="+replayFile,
 				"VERIF_RACE_LOG="+filepath.Join(shardDir, "race"),
+				"VERIF_INFLIGHT="+filepath.Join(shardDir, "inflight.json"),
 				"GORACE=halt_on_error=0 log_path="+filepath.Join(shardDir, "race"),
 			)
 			var buf bytes.Buffer
@@ -245,6 +249,7 @@ func main() {
 	wg.Wait()
 
 	violation := false
+	crashed := 0
 	trouble := ""
 	seen := map[string]bool{}
 	var detail []string
@@ -271,6 +276,27 @@ func main() {
 		if hasViolation {
 			violation = true
 			continue
+		}
+		if c.Crash && !r.timedOut && r.err != nil && (strings.Contains(r.out, "fatal error:") || strings.Contains(r.out, "goroutine stack exceeds")) {
+			// the process was killed by the runtime: the case in flight is the violation
+			inflight := filepath.Join(work, fmt.Sprintf("wd-%d", sh), "inflight.json")
+			if b, e := os.ReadFile(inflight); e == nil {
+				dst := filepath.Join(root, "replays", fmt.Sprintf("%s-crash-%d-%d.json", id, seed, sh))
+				_ = os.MkdirAll(filepath.Dir(dst), 0o755)
+				_ = os.WriteFile(dst, b, 0o644)
+				first := ""
+				for _, l := range strings.Split(r.out, "\n") {
+					if strings.Contains(l, "fatal error:") {
+						first = strings.TrimSpace(l)
+						break
+					}
+				}
+				fmt.Printf("FAILURE-DETAIL property=%s kind=crash the test process died (%s) while rendering the case in flight\n", id, first)
+				fmt.Printf("VIOLATION property=%s replay=%s\n", id, dst)
+				violation = true
+				crashed++
+				continue
+			}
 		}
 		if r.timedOut {
 			trouble = fmt.Sprintf("shard %d exceeded its watchdog of %v (inconclusive)", sh, tc.Timeout)
@@ -305,7 +331,7 @@ func main() {
 		for _, r := range results {
 			parts = append(parts, r.part)
 		}
-		if err := merge(root, id, tier, seed, c, parts, time.Since(start).Seconds(), violation, fuzzNotes); err != nil && !violation && trouble == "" {
+		if err := merge(root, id, tier, seed, c, parts, time.Since(start).Seconds(), violation, fuzzNotes, crashed); err != nil && !violation && trouble == "" {
 			trouble = "evidence: " + err.Error()
 		}
 	}
@@ -369,7 +395,7 @@ func runFuzz(harness, root, work, id string, c propCfg, tc tierCfg) (bool, []str
 		cacheDir := filepath.Join(work, "fuzzcache")
 		ctx, cancel := context.WithTimeout(context.Background(), tc.Fuzz+3*time.Minute)
 		cm := exec.CommandContext(ctx, "go", "test", "-tags", "verif", "-vet=off", "-run", "^$", "-fuzz", "^"+target+"$",
-			"-fuzztime", tc.Fuzz.String(), "-test.fuzzcachedir", cacheDir, "./"+c.Pkg)
+			"-fuzztime", tc.Fuzz.String(), "./"+c.Pkg, "-test.fuzzcachedir", cacheDir)
 		cm.Dir = harness
 		cm.Env = append(goEnv(), "VERIF_TIER=thorough", "VERIF_ROOT="+root, "VERIF_REPLAY_DIR="+filepath.Join(root, "replays"), "VERIF_FUZZ=1")
 		out, err := cm.CombinedOutput()
@@ -429,7 +455,7 @@ type part struct {
 	Replays     []string          `json:"replays"`
 }
 
-func merge(root, id, tier string, seed int, c propCfg, parts []string, wall float64, violation bool, fuzzNotes []string) error {
+func merge(root, id, tier string, seed int, c propCfg, parts []string, wall float64, violation bool, fuzzNotes []string, crashed int) error {
 	evals := 0
 	hashes := map[uint64]struct{}{}
 	classes := map[string]int{}
@@ -476,7 +502,8 @@ func merge(root, id, tier string, seed int, c propCfg, parts []string, wall floa
 		replays = append(replays, pt.Replays...)
 		nviol += len(pt.Failures)
 	}
-	if got == 0 {
+	nviol += crashed
+	if got == 0 && crashed == 0 {
 		return fmt.Errorf("no evidence part was written")
 	}
 	notes = append(notes, fuzzNotes...)
